@@ -468,6 +468,16 @@ def rule_sc1(ctx: Ctx):
                         if tt[0] == "cmp" and tt[1] in ("Is", "IsNot"):
                             other = tt[3] if tt[2][0] == "free" else tt[2]
                         private = other is not None and other[0] == "modvar" and _private_marker(ctx, ospec.module, other)
+                        if private:
+                            # ... and the variable starts as that very marker: a marker the accumulator variable is never set to is never found
+                            init = subscribe_inits(obs).get(accvar)
+                            idn = dotted_name(init) if init is not None else None
+                            if idn is None or idn.split(".")[-1] != str(other[1]).split(".")[-1]:
+                                good, why = False, "'%s' looks for the marker %s in the accumulator variable, which starts as %s and is never set to that marker: " \
+                                                   "the test never holds, so the first fold (or the terminator of an empty source) gets %s instead of the seed" % (
+                                                       show(e.test), str(other[1]).split(".")[-1], ast.unparse(init) if init is not None else "nothing",
+                                                       ast.unparse(init) if init is not None else "an unset variable")
+                                break
                         if not private:
                             good, why = False, "'%s' looks at the accumulator itself: an accumulator equal to that value (user data) is taken for 'no accumulator yet' " \
                                                "or the other way round, while the multiplexed scan uses the private marker STATE_NOTSET" % show(e.test)
